@@ -18,7 +18,7 @@ def run(ctx, only=None):
                 'classes, len, is_empty and the structure\'s own O(n^2) consistency check (hook H4). Release build with debug assertions on. '
                 'case = one history; non-trivial = history with >= 2 operations; distinct = distinct histories')
     ctx.assumptions = ['reference closures in harness/libmon/src/bin/c18_uf.rs']
-    if not any(r.get('done') for r in recs):
+    if not any(r.get('done') for r in recs) and not libmon.report_crash(ctx, 'c18_uf', args, rc, err):
         ctx.inconc('monitor binary did not finish (rc=%s): %s' % (rc, err[-300:]))
     for r in recs:
         if 'histories' in r:
